@@ -385,6 +385,78 @@ def rule_j5(ctx):
         raise Unrecognised("C20.J5", PRED, f"only {k} replacement parses found in the octal handlers (expected 2)")
 
 
+TAR = "src/isla_formalizations/tar.py"
+
+
+def _root_label(meth: ast.FunctionDef, call: ast.Call):
+    """Root label of the parse tree `meth` returns for this call: the constant first component of its returned pair(s); a parameter is resolved through the call's
+    arguments or its default.  None if not constant."""
+    labels = set()
+    pos = [a.arg for a in meth.args.args]
+    defaults = dict(zip(pos[len(pos) - len(meth.args.defaults):], meth.args.defaults))
+    for r in [r for r in walk_local(meth) if isinstance(r, ast.Return) and r.value is not None]:
+        v = r.value
+        if isinstance(v, ast.Name):
+            d = [a for a in walk_local(meth) if isinstance(a, ast.Assign) and len(a.targets) == 1 and src(a.targets[0]) == v.id]
+            if len(d) == 1:
+                v = d[0].value
+        if not (isinstance(v, ast.Tuple) and len(v.elts) == 2):
+            return None
+        lab = v.elts[0]
+        if isinstance(lab, ast.Name) and lab.id in pos:
+            idx = pos.index(lab.id) - 1  # without self
+            given = call.args[idx] if 0 <= idx < len(call.args) else next((k.value for k in call.keywords if k.arg == lab.id), defaults.get(lab.id))
+            lab = given
+        if not (isinstance(lab, ast.Constant) and isinstance(lab.value, str)):
+            return None
+        labels.add(lab.value)
+    return labels.pop() if len(labels) == 1 else None
+
+
+def rule_j6(ctx):
+    """TarParser (the parser behind the tar justify/crop predicates): the tree parsed for start symbol S is `<start>` over ONE child rooted in S - the replacement
+    a predicate proposes for an argument of type S must be a tree for S.  Decided per branch of the start-symbol dispatch: the method called returns a pair whose root label,
+    after resolving a label parameter through the call's arguments and defaults, is the branch's symbol."""
+    if not ctx.repo.exists(TAR):
+        raise Unrecognised("C20.J6", TAR, "file missing")
+    f = ctx.repo.func(TAR, "TarParser.parse_start", "C20.J6")
+    m = ctx.repo.module(TAR, "C20.J6")
+    c = f"{TAR}:TarParser.parse_start"
+    n = 0
+    node = next((s_ for s_ in f.body if isinstance(s_, ast.If)), None)
+    while isinstance(node, ast.If):
+        t = node.test
+        syms = None
+        if isinstance(t, ast.Compare) and len(t.ops) == 1 and src(t.left) == "self.start_symbol":
+            if isinstance(t.ops[0], ast.Eq) and isinstance(t.comparators[0], ast.Constant):
+                syms = [t.comparators[0].value]
+            elif isinstance(t.ops[0], ast.In) and isinstance(t.comparators[0], (ast.Tuple, ast.List, ast.Set)) and all(isinstance(e, ast.Constant) for e in t.comparators[0].elts):
+                syms = [e.value for e in t.comparators[0].elts]
+        if syms is None:
+            raise Unrecognised("C20.J6", c, f"dispatch test `{src(t)[:50]}` not understood")
+        asg = [a for a in node.body if isinstance(a, ast.Assign) and src(a.targets[0]) == "children" and isinstance(a.value, ast.List)]
+        if len(asg) != 1:
+            raise Unrecognised("C20.J6", c, f"branch for {syms} does not assign `children = [...]`")
+        calls = [e for e in asg[0].value.elts if isinstance(e, ast.Call) and isinstance(e.func, ast.Attribute) and src(e.func.value) == "self"]
+        if syms != ["<start>"]:
+            if len(calls) != 1 or len(asg[0].value.elts) != 1:
+                raise Unrecognised("C20.J6", c, f"branch for {syms} is not a single self.parse_*() call")
+            meth = m.get(f"TarParser.{calls[0].func.attr}")
+            if not isinstance(meth, ast.FunctionDef):
+                raise Unrecognised("C20.J6", c, f"method {calls[0].func.attr} not found")
+            lab = _root_label(meth, calls[0])
+            if lab is None:
+                raise Unrecognised("C20.J6", f"{TAR}:TarParser.{meth.name}", "root label of the returned tree is not constant")
+            for sym in syms:
+                n += 1
+                ctx.check(lab == sym, "J6-parser-root-label", c, f"start symbol {sym} -> tree rooted in {sym}", site(calls[0]),
+                          f"for start symbol {sym} the parser returns `{src(calls[0])}`, a tree rooted in {lab}: the replacement that ljust_crop_tar / rjust_crop_tar propose for a {sym} argument "
+                          f"has the right text and width but is not a tree for {sym}", f"{meth.name} returns {lab}")
+        node = node.orelse[0] if len(node.orelse) == 1 and isinstance(node.orelse[0], ast.If) else None
+    if n < 15:
+        raise Unrecognised("C20.J6", c, f"only {n} start-symbol branches found (expected >= 15)")
+
+
 def rule_j4(ctx):
     """No predicate (or any other stored callable) is built from a closure that captures a loop variable by reference.  Expected count on today's tree: zero."""
     from ..callgraph import SRC_ISLA
@@ -408,6 +480,10 @@ def rule_j4(ctx):
 
 def run(ctx) -> str:
     ctx.guarded("J5", lambda: rule_j5(ctx))
+    ctx.guarded("J6", lambda: rule_j6(ctx))
+    from ..memo import check_memo_keys
+
+    ctx.guarded("J7", lambda: ctx.inventory.__setitem__("predicate_memo_sites", check_memo_keys(ctx, "J7-memo-key", [PRED, TAR], min_sites=0)))
     ctx.guarded("J4", lambda: rule_j4(ctx))
     ctx.guarded("J3", lambda: rule_j3(ctx))
     ctx.guarded("J", lambda: rule_j(ctx))
